@@ -4,7 +4,7 @@ Metamorphic check: every case builds the same configuration twice, once with ori
 o + d (points, centres, source grids and mesh vertices that are *inputs* are translated with the origin), runs
 a catalogue of public entry points on both and demands
 
-    coordinate-valued result:  r(o + d) - r(o) == d            (1e-9 absolute)
+    coordinate-valued result:  r(o + d) - r(o) == d            (1e-9 absolute + 64 ulp of the largest coordinate)
     extent-valued result:      r(o + d) - r(o) == (dx, dx, dy, dy)
     invariant result:          r(o + d) == r(o)                 (exact for ints / bools, 1e-9 for floats)
 
@@ -21,42 +21,67 @@ from vp.engine import SubCheck, Violation, KnownSkip, HarnessError
 
 PROPERTY = "C12"
 RULE = (
-    "Every case fixes a configuration (mask / frame shape, pixel scales, parameters) plus an origin o (|o|<=100, "
-    "zero in 1/4 of cases) and a shift d (|d|<=100; kinds any / small / tiny 1e-6 / axis-aligned) and builds it "
-    "twice, at o and at o+d; inputs that are positions (points, centres, source grids, mesh vertices, dataset "
-    "arrays) are generated relative to the origin so they translate with it. A catalogue of public entry points "
-    "(from the property's observe_at list and the helpers around them), each declared coordinate-valued / "
-    "extent-valued / invariant, is evaluated in both worlds. Oracle (metamorphic): r(o+d)-r(o)==d for coordinates "
-    "(atol 1e-9; 1e-7 for the Hilbert mesh), (dx,dx,dy,dy) for extents, equality for index/count/bool results "
-    "(exact) and for weights/matrices/values (atol 1e-9, mapping matrices 1e-8); the origin attribute, pixel "
-    "scales and boolean mask of every returned structure are observed too; an exception must occur for both "
-    "origins or neither. Sub-checks: mask_grids (grids, derived masks/grids, over-sampled and border grids, "
-    "centre, extent, zoom, radial projection, resize/pad/trim on Hypothesis masks <=12x12), image_mesh (Overlay on "
-    "general masks, Hilbert on circular masks in odd frames with affine adapt data, mesh-pixel counts), imaging "
-    "(apply_mask / apply_noise_scaling / apply_over_sampling / trimmed_after_convolution_from), simulate "
+    "Every case fixes a configuration (mask / frame shape, pixel scales, parameters), a magnitude class M in "
+    "{1e2, 1e4, 1e6} (1e2 drawn twice as often), an origin o (|o|<=M, zero in 1/4 of cases), a shift d (|d|<=M; "
+    "kinds any / small / tiny 1e-6 / axis-aligned; in a large class at least one of o, d is large) and an order, and "
+    "builds it twice, at o and at o+d, in that order; inputs that are positions (points, centres, source grids, mesh "
+    "vertices, dataset arrays) are generated relative to the origin so they translate with it. A catalogue of "
+    "public entry points (from the property's observe_at list and the helpers around them), each declared "
+    "coordinate-valued / extent-valued / invariant, is evaluated in both worlds. Oracle (metamorphic): "
+    "r(o+d)-r(o)==d for coordinates, (dx,dx,dy,dy) for extents, equality for index/count/bool results (exact) and "
+    "for weights/matrices/values; float comparisons use atol = absolute term (1e-9; 1e-8 mapping matrices and float "
+    "pixel coordinates; 1e-7 Hilbert mesh and inversion matrices) + 64*eps*(2M+100)*amplification, amplification 1 "
+    "for coordinates, 1/pixel-scale for results in pixel units, 60 for the profile averages of the over samplers, "
+    "64 for the Hilbert mesh, (2M+100)/separation^2 for Delaunay weights; the origin attribute, pixel scales and "
+    "boolean mask of every returned structure are observed too; an exception must occur for both origins or "
+    "neither. Sub-checks: mask_grids (grids, derived masks/grids, over-sampled and border grids, uniform and "
+    "iterative over-sampler averages of a profile centred on the origin, centre, extent, zoom, radial projection, "
+    "resize/pad/trim, is_uniform on Hypothesis masks <=12x12), image_mesh (Overlay on general masks, Hilbert on "
+    "circular masks in odd frames with affine adapt data, mesh-pixel counts), imaging (apply_mask / "
+    "apply_noise_scaling / apply_over_sampling / trimmed_after_convolution_from), simulate "
     "(SimulatorImaging.via_image_from with and without Poisson noise map, S/N-limited noise map, noise-map helpers), "
-    "pixel_indices (scaled<->pixel conversions of translated points given in pixel units), mappers (rectangular and "
-    "Delaunay mappers from vp.scene on translated masks: mesh geometry, index/weight tables, mapping matrix). "
-    "Comparisons that sit in a tie band are skipped and counted: points within 1e-6 pixel of a pixel / mesh-cell "
-    "boundary for int()-based functions, radial projections whose length/scale is within 1e-6 of an integer or "
-    "whose longest direction is ambiguous, Delaunay rows of image pixels owning a sub-pixel within 1e-7 of the "
-    "hull boundary / of a nearest-vertex tie, and Delaunay cases whose triangulation is within 1e-6 of "
-    "co-circular. Non-trivial = both components of d non-zero and, where the configuration is built on a general mask "
-    "(mask_grids, Overlay, imaging, mappers), the unmasked region is not centred in the frame; distinct = SHA-1 of "
-    "the canonical case."
+    "shared_config (ONE instance of OverSamplingUniform x5, OverSamplingDataset x2, OverSamplingIterate, PSF, "
+    "SimulatorImaging, image_mesh.Overlay, mesh.Rectangular, reg.Constant and SettingsInversion serves both "
+    "origins; every entry is evaluated in the sequence A B B A: over samplers and their grids, masked datasets and "
+    "their uniform / pixelization / non-uniform over-sampled grids and border sub-grid, apply_over_sampling, "
+    "profile averages, simulated datasets, overlay mesh, rectangular mapper tables and matrix, inversion data "
+    "vector / curvature / regularization matrices), pixel_indices (scaled<->pixel conversions of translated points "
+    "given in pixel units), mappers (rectangular and Delaunay mappers from vp.scene on translated masks: mesh "
+    "geometry, index/weight tables, mapping matrix; Delaunay bounded to M<=1e4 with pixel scales >=1 in the 1e4 "
+    "class). Inputs of int()-based functions are constructed away from cell boundaries: points in pixel units keep "
+    ">= 4 tie bands from a pixel boundary, tie band = 1e-6 + 256*eps*(2M+100)/cell; radial centres sit (j+f) pixels "
+    "from the frame centre with f in {1/8,1/4,0.3,0.7,7/8}; overlay and rectangular mesh sizes are chosen so that "
+    "no overlay centre / source point is in a tie band of an interior cell boundary. What is left is skipped and "
+    "counted: rows of a rectangular mapper in a tie band when no mesh size 3..5 is free, radial projections whose "
+    "longest direction is ambiguous (anisotropic scales), Delaunay rows of image pixels owning a sub-pixel within "
+    "1e-7+256*eps*(2M+100) of the hull boundary / of a nearest-vertex tie, and Delaunay cases whose triangulation is "
+    "within 1e-6+64*eps*((2M+100)/spread)^2 of co-circular. The outer 1e-8 buffer of the rectangular mesh is never "
+    "excluded. Non-trivial = both components of d non-zero and, where the configuration is built on a general mask "
+    "(mask_grids, Overlay, imaging, shared_config, mappers), the unmasked region is not centred in the frame; "
+    "distinct = SHA-1 of the canonical case."
 )
 ASSUMPTIONS = [
-    "coordinates stay O(300) (|o|,|d|<=100, frames <=12 pixels of scale <=5), so rounding error of the compared "
-    "quantities is <=1e-12, far below the 1e-9 tolerance and the 1e-6 tie bands",
-    "int()-based pixel / cell assignment is only compared for points >=1e-6 (pixel or cell units) from a boundary; "
-    "the outer 1e-8 buffer of Mesh2DRectangular.overlay_grid is not treated as a tie (1e-8 >> 1e-12)",
-    "Delaunay tables are compared through the mapping matrix and neighbour lists, never through simplex ids, and "
-    "only when the vertex set is not within 1e-6 (normalised in-circle determinant) of a co-circular quadruple, "
-    "so the triangulation itself is translation-independent",
+    "coordinates stay below 2M+100 with M<=1e6 (frames <=12 pixels of scale <=5), so one rounding of a coordinate is "
+    "<= eps*(2M+100) <= 4.5e-10; tolerances allow 64 of them (times the stated amplification) on top of the absolute "
+    "term, tie bands 256 of them per cell",
+    "the unchanged tree was measured to keep its rectangular-mesh index tables up to |coordinate| ~1e7 (1e-8 edge "
+    "buffer, 0.05 pixel scale; it fails at 1e8), Grid2D.is_uniform's absolute 1e-8 test up to ~1e7, the Hilbert "
+    "mesh to ~1e3 ulp of the coordinate; the classes stop at M=1e6, one decade inside",
+    "Delaunay: Qhull's in-circle test and the shoelace triangle areas behind the interpolation weights are computed "
+    "on absolute coordinates and are only resolved to eps*(M/separation)^2; this is treated as the float resolution "
+    "of the implementation, not as a violation, and the Delaunay class is bounded accordingly",
+    "int()-based pixel / cell assignment is only compared for points outside the tie band of a boundary; the outer "
+    "1e-8 buffer of Mesh2DRectangular.overlay_grid is not treated as a tie",
+    "Delaunay tables are compared through the mapping matrix and neighbour lists, never through simplex ids",
     "Hilbert image mesh: adapt data is an affine function of position on an unmasked frame, so the linear "
     "interpolation inside hilbert.image_and_grid_from does not depend on how Qhull triangulates the regular pixel "
     "grid (which is degenerate and may legitimately change with the origin); frames are odd-sized with >=1 pixel "
     "margin so is_circular / circular_radius are tie-free and no Hilbert point touches the interpolation hull",
+    "iterative over sampling: the profile 50+b.(r-o)+q|r-o|^2 and the fractional accuracies 0.5 / 1-1e-9 are chosen "
+    "so that every threshold comparison is decisive (ratio of successive averages within [0.85,1] and, for q>0, "
+    ">=8e-9 away from 1), so the path through the sub-sizes cannot depend on rounding",
+    "sharing one configuration object between masks / datasets that differ only in origin is ordinary use (the "
+    "objects are documented as settings and are passed around by the dataset and grid classes)",
     "Mask2D.circular's `centre` argument is not exercised: its docstring does not say whether it is absolute or "
     "relative to the origin",
     "SimulatorImaging is run with a fixed noise_seed, which makes its Poisson deviate a deterministic function "
@@ -68,12 +93,33 @@ ASSUMPTIONS = [
 TECHNIQUE = ("property-based testing (Hypothesis) with a metamorphic oracle: translation of the origin over a "
              "catalogue of coordinate-, extent- and index-valued entry points")
 
-ATOL = 1e-9          # coordinates, weights, values
+ATOL = 1e-9          # coordinates, weights, values (absolute term; see tol())
 ATOL_MATRIX = 1e-8   # mapping matrices (Delaunay barycentric weights)
 ATOL_HILBERT = 1e-7  # chain of two interpolations inside the Hilbert image mesh
-TIE_PIX = 1e-6       # pixel / cell units
-TIE_HULL = 1e-7      # scaled units, Delaunay hull boundary and nearest-vertex ties
-TIE_CIRC = 1e-6      # normalised in-circle determinant
+TIE_PIX = 1e-6       # pixel / cell units (absolute term; see tie_pix())
+TIE_HULL = 1e-7      # scaled units, Delaunay hull boundary and nearest-vertex ties (absolute term)
+TIE_CIRC = 1e-6      # normalised in-circle determinant (absolute term)
+EPS = float(np.finfo(float).eps)
+ULPS_TOL = 64        # tolerance  = absolute term + ULPS_TOL * eps * max|coordinate| (* amplification)
+ULPS_TIE = 256       # tie band   = absolute term + ULPS_TIE * eps * max|coordinate| / cell size
+FRAME_SPAN = 100.0   # upper bound of |position - origin| of anything generated (12 pixels of scale <= 5, offsets)
+MAGS = (1e2, 1e2, 1e4, 1e6)   # classes of |origin|, |shift| (1e2 twice: it is the everyday class)
+
+
+def coord_mag(mag):
+    """upper bound of |coordinate| in a case of magnitude class `mag` (|o| <= mag, |d| <= mag)."""
+    return 2.0 * mag + FRAME_SPAN
+
+
+def tol(mag, base=ATOL, per=1.0):
+    """ulp-aware tolerance: the absolute term plus 64 ulp of the largest coordinate, times an amplification `per`
+    (e.g. 1/pixel_scale for results in pixel units)."""
+    return base + ULPS_TOL * EPS * coord_mag(mag) * per
+
+
+def tie_pix(mag, cell):
+    """tie band (in units of the cell of size `cell`) around a cell boundary for int()-based assignment."""
+    return TIE_PIX + ULPS_TIE * EPS * coord_mag(mag) / cell
 
 
 def _aa():
@@ -89,28 +135,40 @@ def _nz(v, alt):
 
 
 @st.composite
-def shifts(draw):
+def shifts(draw, mag=100.0):
     kind = draw(st.sampled_from(["any", "any", "any", "small", "tiny", "axis-y", "axis-x"]))
     if kind == "any":
-        d = [_nz(draw(st.floats(-100, 100)), 37.5), _nz(draw(st.floats(-100, 100)), -12.25)]
+        d = [_nz(draw(st.floats(-mag, mag)), 37.5), _nz(draw(st.floats(-mag, mag)), -12.25)]
     elif kind == "small":
         d = [_nz(draw(gens.reals(-3, 3)), 1.0), _nz(draw(gens.reals(-3, 3)), -2.0)]
     elif kind == "tiny":
         d = [draw(st.sampled_from([-1e-6, 1e-6])) * draw(st.floats(0.5, 2.0)),
              draw(st.sampled_from([-1e-6, 1e-6])) * draw(st.floats(0.5, 2.0))]
     elif kind == "axis-y":
-        d = [_nz(draw(st.floats(-100, 100)), 3.0), 0.0]
+        d = [_nz(draw(st.floats(-mag, mag)), 3.0), 0.0]
     else:
-        d = [0.0, _nz(draw(st.floats(-100, 100)), -3.0)]
+        d = [0.0, _nz(draw(st.floats(-mag, mag)), -3.0)]
     return {"kind": kind, "d": d}
 
 
 @st.composite
-def frames(draw):
-    """origin, shift and pixel scales common to every sub-check."""
-    sh = draw(shifts())
-    return {"origin": draw(gens.origins(mag=100.0)), "shift": sh["d"], "shift_kind": sh["kind"],
-            "pixel_scales": draw(gens.pixel_scales())}
+def frames(draw, mags=MAGS):
+    """origin, shift, magnitude class, evaluation order and pixel scales common to every sub-check.  In a large
+    class at least one of origin / shift is large (the origin may still be zero or small, the shift tiny)."""
+    mag = draw(st.sampled_from(list(mags)))
+    sh = draw(shifts(mag))
+    origin = draw(gens.origins(mag=mag))
+    if mag > 100.0 and max(abs(origin[0]), abs(origin[1]), abs(sh["d"][0]), abs(sh["d"][1])) <= 100.0:
+        origin = [origin[0] + draw(st.sampled_from([-1.0, 1.0])) * mag * draw(st.floats(0.25, 1.0)),
+                  origin[1] + draw(st.sampled_from([-1.0, 1.0])) * mag * draw(st.floats(0.25, 1.0))]
+        origin = [max(-mag, min(mag, origin[0])), max(-mag, min(mag, origin[1]))]
+    return {"origin": origin, "shift": sh["d"], "shift_kind": sh["kind"], "mag": mag,
+            "order": draw(st.integers(0, 1)), "pixel_scales": draw(gens.pixel_scales())}
+
+
+def case_mag(case):
+    """magnitude class of a case; replay files written before the classes existed have |o|,|d| <= 100."""
+    return float(case.get("mag", 100.0))
 
 
 @st.composite
@@ -145,6 +203,7 @@ class World:
         self.which = which
         self.ps = (float(case["pixel_scales"][0]), float(case["pixel_scales"][1]))
         self.case = case
+        self.mag = case_mag(case)
         self._mask = None
 
     @property
@@ -177,12 +236,16 @@ class World:
 
 def worlds(case):
     w0, w1 = World(case, 0), World(case, 1)
+    if max(np.abs(w0.o).max(), np.abs(w1.o).max()) > 2.0 * w0.mag:
+        raise HarnessError("case outside its magnitude class")
     return w0, w1, w1.o - w0.o
 
 
 def frame_labels(case, ctx, mask=None):
     d = case["shift"]
     ctx.label("shift:%s" % case.get("shift_kind", "?"))
+    ctx.label("mag:%g" % case_mag(case))
+    ctx.label("order:%s" % ("o-first" if not case.get("order", 0) else "o+d-first"))
     ctx.label("origin:zero" if case["origin"] == [0.0, 0.0] else "origin:nonzero")
     ctx.label("scales:iso" if case["pixel_scales"][0] == case["pixel_scales"][1] else "scales:aniso")
     both = d[0] != 0.0 and d[1] != 0.0
@@ -286,20 +349,21 @@ def compare(ctx, key, facets0, facets1, d, atol=ATOL):
             raise HarnessError("unknown facet kind %r" % kind)
 
 
-def observe(ctx, key, fn, facets, w0, w1, d, atol=ATOL):
+def observe(ctx, key, fn, facets, w0, w1, d, atol=ATOL, per=1.0):
     """Run one catalogue entry in both worlds and compare; an exception raised by repository code must occur in
     both worlds (same type) or in neither.  Returns True when the two results were compared."""
-    res = []
-    for w in (w0, w1):
+    res = {}
+    atol = tol(w0.mag, atol, per)
+    for w in ((w1, w0) if w0.case.get("order", 0) else (w0, w1)):   # which world is built / evaluated first
         try:
-            res.append(("ok", facets(fn(w))))
+            res[w.which] = ("ok", facets(fn(w)))
         except (Violation, KnownSkip, HarnessError):
             raise
         except Exception as e:
             if not _repo_exception(e):
                 raise
-            res.append(("exc", e))
-    (s0, r0), (s1, r1) = res
+            res[w.which] = ("exc", e)
+    (s0, r0), (s1, r1) = res[0], res[1]
     if s0 == "exc" and s1 == "exc":
         if type(r0) is type(r1):
             ctx.label("both-raise:%s" % key)
@@ -338,23 +402,33 @@ def rel_centres(mask, ps):
     return np.stack([((h - 1) / 2.0 - ii) * ps[0], (jj - (w - 1) / 2.0) * ps[1]], axis=-1)
 
 
-def radial_tie(shape, ps, c):
+def radial_tie(shape, ps, c, mag=100.0):
     """_radial_projected_shape_slim_from: int(longest distance / its pixel scale) and the choice of direction."""
     h, w = shape
     dy = [h * ps[0] / 2.0 - c[0], h * ps[0] / 2.0 + c[0]]
     dx = [w * ps[1] / 2.0 - c[1], w * ps[1] / 2.0 + c[1]]
     my, mx = max(dy), max(dx)
-    if ps[0] != ps[1] and abs(my - mx) < 1e-6:
+    same = 1e-6 + ULPS_TIE * EPS * coord_mag(mag)      # scaled units: which direction is the longest
+    if ps[0] != ps[1] and abs(my - mx) < same:
         return True
-    if my >= mx or abs(my - mx) < 1e-6:
+    if my >= mx or abs(my - mx) < same:
         q = my / ps[0]
-        if abs(q - round(q)) < TIE_PIX:
+        if abs(q - round(q)) < tie_pix(mag, ps[0]):
             return True
-    if mx >= my or abs(my - mx) < 1e-6:
+    if mx >= my or abs(my - mx) < same:
         q = mx / ps[1]
-        if abs(q - round(q)) < TIE_PIX:
+        if abs(q - round(q)) < tie_pix(mag, ps[1]):
             return True
     return False
+
+
+@st.composite
+def radial_centres(draw, ps):
+    """centre of a radial projection relative to the origin, placed (j + f) pixels from the frame centre with
+    f in {1/8, 1/4, 0.3, 0.7, 7/8}: the distance to every frame edge is then >= 1/8 pixel away from a whole number
+    of pixels whatever the parity of the frame, so int(distance / scale) is well away from a tie by construction."""
+    fr = st.sampled_from([0.125, 0.25, 0.3, 0.7, 0.875])
+    return [(draw(st.integers(-2, 1)) + draw(fr)) * ps[0], (draw(st.integers(-2, 1)) + draw(fr)) * ps[1]]
 
 
 # ---------------------------------------------------------------------------------------------
@@ -376,11 +450,12 @@ def mask_grid_cases(draw):
     case["buffer"] = draw(st.integers(0, 2))
     case["new_shape"] = [draw(st.integers(1, 13)), draw(st.integers(1, 13))]
     case["rescale"] = draw(st.sampled_from([0.5, 2.0, 1.5]))
-    case["radial_centre"] = [draw(gens.reals(-2, 2)), draw(gens.reals(-2, 2))]
+    case["radial_centre"] = draw(radial_centres(case["pixel_scales"]))
     case["radial_angle"] = draw(st.sampled_from([0.0, 30.0, 90.0, 217.5]))
     case["offset"] = [draw(gens.reals(-3, 3)), draw(gens.reals(-3, 3))]
     case["remove_centre"] = [draw(gens.reals(-2, 2)), draw(gens.reals(-2, 2))]
     case["remove_distance"] = draw(gens.positives(0.1, 4.0))
+    case["iterate"] = iterate_spec(draw)
     return case
 
 
@@ -433,9 +508,18 @@ def body_mask_grids(case, ctx):
     ob("grid/scaled_minima", lambda wd: grid(wd).scaled_minima, f_coord)
     ob("grid/scaled_maxima", lambda wd: grid(wd).scaled_maxima, f_coord)
     ob("grid/shape_native_scaled_interior", lambda wd: grid(wd).shape_native_scaled_interior, f_close)
+    ob("grid/is_uniform", lambda wd: bool(grid(wd).is_uniform), f_exact)
     # over-sampled and border grids
     ob("over_sampler/over_sampled_grid", lambda wd: scene.over_sampler_for(wd.mask, sub).over_sampled_grid, f_coord_grid)
     ob("over_sampler/tables", lambda wd: _os_tables(scene.over_sampler_for(wd.mask, sub)), lambda t: t)
+    it = case.get("iterate")
+    if it is not None:
+        ctx.label("iterate:%s" % it["mode"])
+        ob("over_sampler_iterate/array_via_func_from", lambda wd: aa.OverSamplerIterate(
+            mask=wd.mask, fractional_accuracy=it["fractional_accuracy"], sub_steps=list(it["sub_steps"])
+        ).array_via_func_from(_profile_func, _Profile(wd.o, it["b"], it["q"])), f_array, per=60.0)
+        ob("over_sampler_uniform/array_via_func_from", lambda wd: scene.over_sampler_for(wd.mask, sub).array_via_func_from(
+            _profile_func, _Profile(wd.o, it["b"], it["q"])), f_array, per=60.0)
 
     def relocator(wd):
         s = sub if isinstance(sub, int) else aa.Array2D(values=np.asarray(sub, dtype=int), mask=wd.mask)
@@ -454,8 +538,8 @@ def body_mask_grids(case, ctx):
     ob("geometry/shape_native_scaled", lambda wd: wd.mask.geometry.shape_native_scaled, f_close)
     # zoom
     ob("mask/zoom_region", lambda wd: wd.mask.zoom_region, f_exact)
-    ob("mask/zoom_centre", lambda wd: wd.mask.zoom_centre, f_close)
-    ob("mask/zoom_offset_pixels", lambda wd: wd.mask.zoom_offset_pixels, f_close)
+    ob("mask/zoom_centre", lambda wd: wd.mask.zoom_centre, f_close, per=1.0 / min(w0.ps))
+    ob("mask/zoom_offset_pixels", lambda wd: wd.mask.zoom_offset_pixels, f_close, per=1.0 / min(w0.ps))
     ob("mask/zoom_mask_unmasked", lambda wd: wd.mask.zoom_mask_unmasked, f_mask_grid)
     ob("array/zoomed_around_mask", lambda wd: arr(wd).zoomed_around_mask(buffer=case["buffer"]), f_array)
     ob("array/extent_of_zoomed_array", lambda wd: arr(wd).extent_of_zoomed_array(buffer=case["buffer"]), f_extent)
@@ -470,7 +554,7 @@ def body_mask_grids(case, ctx):
     # distances and radial projection about a centre that moves with the origin
     rc = case["radial_centre"]
     ob("grid/distances_to_coordinate_from", lambda wd: grid(wd).distances_to_coordinate_from(coordinate=wd.at(rc)).slim, f_close)
-    if radial_tie((h, w), w0.ps, rc):
+    if radial_tie((h, w), w0.ps, rc, w0.mag):      # only the aniso "which direction is longest" tie is left
         ctx.tie()
         ctx.label("radial:tie")
     else:
@@ -482,7 +566,7 @@ def body_mask_grids(case, ctx):
     # removal of coordinates within a distance of a translated point
     cen = rel_centres(m, w0.ps)
     dist = np.sqrt(((cen - np.asarray(case["remove_centre"])) ** 2).sum(axis=1))
-    if np.any(np.abs(dist - case["remove_distance"]) < 1e-6):
+    if np.any(np.abs(dist - case["remove_distance"]) < 1e-6 + ULPS_TIE * EPS * coord_mag(w0.mag)):
         ctx.tie()
     else:
         ob("grid/grid_with_coordinates_within_distance_removed_from",
@@ -531,7 +615,8 @@ def image_mesh_cases(draw):
         case["shape"] = shape
         h, w = len(mask), len(mask[0])
         npts = draw(st.integers(1, 8))
-        case["points"] = [[draw(pix_coords(h)), draw(pix_coords(w))] for _ in range(npts)]
+        near = near_margin(case)
+        case["points"] = [[draw(pix_coords(h, near)), draw(pix_coords(w, near))] for _ in range(npts)]
     else:
         s = case["pixel_scales"][0]
         case["pixel_scales"] = [s, s]
@@ -548,16 +633,24 @@ def image_mesh_cases(draw):
 
 
 @st.composite
-def pix_coords(draw, n):
-    """a pixel-unit coordinate in [-1, n+1]: pixel centres, quarter points, near-boundary and arbitrary."""
+def pix_coords(draw, n, near):
+    """a pixel-unit coordinate in [-1, n+1]: pixel centres, quarter points, points `near` from a pixel boundary and
+    arbitrary fractions in [near, 1-near].  `near` = 4 tie bands of the case's magnitude class, so no generated
+    point sits in a tie band (constructed, not filtered)."""
     i = draw(st.integers(-1, n))
-    f = draw(st.one_of(st.sampled_from([0.5, 0.5, 0.25, 0.75, 1e-4, 1.0 - 1e-4, 0.0]), st.floats(0.0, 1.0, exclude_max=True)))
+    f = draw(st.one_of(st.sampled_from([0.5, 0.5, 0.25, 0.75, near, 1.0 - near]), st.floats(near, 1.0 - near)))
     return i + f
 
 
-def pix_ties(u):
+def near_margin(case):
+    return 4.0 * tie_pix(case_mag(case), min(case["pixel_scales"]))
+
+
+def pix_ties(u, case):
+    """guard: points inside the tie band (none by construction; replay files of older cases may have some)."""
     u = np.asarray(u, dtype=float).reshape(-1, 2)
-    return np.any(np.abs(u - np.round(u)) < TIE_PIX, axis=1)
+    t = tie_pix(case_mag(case), min(case["pixel_scales"]))
+    return np.any(np.abs(u - np.round(u)) < t, axis=1)
 
 
 def body_image_mesh(case, ctx):
@@ -581,7 +674,7 @@ def body_image_mesh(case, ctx):
         # counts of (translated) mesh points per image pixel
         u = np.asarray(case["points"], dtype=float)
         u = u[(u[:, 0] > 0) & (u[:, 0] < h) & (u[:, 1] > 0) & (u[:, 1] < w)]   # the counters index the frame
-        keep = ~pix_ties(u)
+        keep = ~pix_ties(u, case)
         ctx.tie(int((~keep).sum()))
         if keep.any():
             u = u[keep]
@@ -623,7 +716,9 @@ def body_image_mesh(case, ctx):
                                      weight_power=case["weight_power"])
         return mesh.image_plane_mesh_grid_from(mask=cmask(wd), adapt_data=ad)
 
-    observe(ctx, "image_mesh/hilbert", hilbert, f_coord_grid, w0, w1, d, atol=ATOL_HILBERT)
+    # two chained interpolations (barycentric on absolute coordinates, then the inverse CDF along the curve) amplify
+    # the rounding of the coordinates: measured <= ~1e3 ulp of the largest coordinate, allowed 64*64 ulp
+    observe(ctx, "image_mesh/hilbert", hilbert, f_coord_grid, w0, w1, d, atol=ATOL_HILBERT, per=64.0)
 
 
 # ---------------------------------------------------------------------------------------------
@@ -809,6 +904,183 @@ def body_simulate(case, ctx):
 
 
 # ---------------------------------------------------------------------------------------------
+# sub-check: shared_config  (ONE instance of every configuration object serves both origins)
+# ---------------------------------------------------------------------------------------------
+class _Profile:
+    """A function of position relative to a centre, A + b.(r - c) + q|r - c|^2 > 0, in the (obj, grid) form the over
+    samplers call.  With q = 0 every symmetric sub-grid average equals the value at the pixel centre."""
+
+    def __init__(self, centre, b, q):
+        self.centre = np.asarray(centre, dtype=float)
+        self.b = b
+        self.q = q
+
+    def image(self, grid):
+        g = np.asarray(grid, dtype=float).reshape(-1, 2) - self.centre
+        return 50.0 + self.b[0] * g[:, 0] + self.b[1] * g[:, 1] + self.q * (g[:, 0] ** 2 + g[:, 1] ** 2)
+
+
+def _profile_func(obj, grid, *args, **kwargs):
+    return obj.image(grid)
+
+
+def iterate_spec(draw):
+    """fractional accuracies that are decisive for _Profile (ratio of successive sub-size averages is within
+    [1 - 4e-2, 1] and, for q > 0, at least 1e-7 away from 1): 0.5 accepts the first step everywhere, 1 - 1e-9 with
+    q > 0 accepts nowhere, so the path through the thresholds cannot depend on rounding."""
+    mode = draw(st.sampled_from(["accept-first", "never-accept"]))
+    return {"mode": mode, "fractional_accuracy": 0.5 if mode == "accept-first" else 1.0 - 1e-9,
+            "sub_steps": draw(st.sampled_from([[2, 4], [2, 3, 4], [3, 6]])),
+            "b": [draw(st.sampled_from([-0.75, 0.5, 1.0])), draw(st.sampled_from([-1.0, 0.25, 0.5]))],
+            "q": draw(st.sampled_from([0.0, 0.5])) if mode == "accept-first" else draw(st.sampled_from([0.25, 0.5]))}
+
+
+@st.composite
+def shared_cases(draw):
+    case = draw(frames())
+    ring = draw(st.sampled_from([1, 1, 2]))
+    mask = draw(offcentre_masks(lo=2, hi=5, ring=ring, min_unmasked=3))
+    case["mask"] = mask
+    case["subs"] = [draw(st.integers(1, 3)) for _ in range(5)]
+    case["iterate"] = iterate_spec(draw)
+    case["warp"] = draw(scene.warps())
+    y0, y1, x0, x1 = bbox(mask)
+    shape = []
+    for n in (y1 - y0 + 1, x1 - x0 + 1):
+        free = [k for k in range(1, 7) if not overlay_tie(n, k)]
+        shape.append(draw(st.sampled_from(free)) if free else 1)
+    case["overlay_shape"] = shape
+    src = scene.apply_warp(rel_sub_centres(mask, case["pixel_scales"], case["subs"][1]), case["warp"], [0.0, 0.0])
+    mesh = []
+    for ax in (0, 1):
+        free = [k for k in (3, 4, 5) if not _axis_ties(src[:, ax], k, case["mag"]).any()]
+        mesh.append(draw(st.sampled_from(free)) if free else draw(st.integers(3, 5)))
+    case["mesh_shape"] = mesh
+    case["poisson_in_noise_map"] = draw(st.booleans())
+    return case
+
+
+def body_shared_config(case, ctx):
+    aa = _aa()
+    w0, w1, d = worlds(case)
+    m = np.asarray(case["mask"], dtype=bool)
+    h, w = m.shape
+    frame_labels(case, ctx, m)
+    subs = case["subs"]
+    # one instance of every configuration object, used for both origins
+    os_u, os_p, os_n = (aa.OverSamplingUniform(sub_size=subs[i]) for i in range(3))
+    os_data = aa.OverSamplingDataset(uniform=os_u, pixelization=os_p, non_uniform=os_n)
+    os_u2, os_p2 = aa.OverSamplingUniform(sub_size=subs[3]), aa.OverSamplingUniform(sub_size=subs[4])
+    os_data2 = aa.OverSamplingDataset(uniform=os_u2, pixelization=os_p2)
+    it = case["iterate"]
+    os_it = aa.OverSamplingIterate(fractional_accuracy=it["fractional_accuracy"], sub_steps=list(it["sub_steps"]))
+    psf = aa.Kernel2D.no_mask(values=1.0 + np.arange(9, dtype=float).reshape(3, 3), pixel_scales=w0.ps)
+    sim = aa.SimulatorImaging(exposure_time=300.0, background_sky_level=0.5, psf=psf,
+                              include_poisson_noise_in_noise_map=case["poisson_in_noise_map"], noise_seed=7)
+    overlay = aa.image_mesh.Overlay(shape=tuple(case["overlay_shape"]))
+    mesh = aa.mesh.Rectangular(shape=tuple(case["mesh_shape"]))
+    reg = aa.reg.Constant(coefficient=1.0)
+    settings = aa.SettingsInversion(use_w_tilde=False, use_positive_only_solver=False, force_edge_pixels_to_zeros=False)
+    ctx.label("iterate:%s" % it["mode"])
+
+    vals = 2.0 + np.arange(h * w, dtype=float).reshape(h, w) % 7 + 0.25 * np.arange(h * w).reshape(h, w)
+    noise = 0.5 + (np.arange(h * w, dtype=float).reshape(h, w) % 5) * 0.3
+    flipped = dict(case, order=1 - case.get("order", 0))
+    f0, f1 = World(flipped, 0), World(flipped, 1)
+
+    def ob(key, fn, facets, **kw):
+        """o then o+d (or the reverse, by the case's order) and straight afterwards in the opposite order, so each
+        world is evaluated once right after the other one and once right after itself: A B B A."""
+        observe(ctx, key, fn, facets, w0, w1, d, **kw)
+        observe(ctx, key, fn, facets, f0, f1, d, **kw)
+
+    def f_sampler(o):
+        return [("over_sampled_grid", "coord", _xy(o.over_sampled_grid)), ("mask.origin", "coord", np.asarray(o.mask.origin, dtype=float)),
+                ("sub_total", "exact", np.asarray(o.sub_total)), ("slim_for_sub_slim", "exact", np.asarray(o.slim_for_sub_slim))]
+
+    ob("shared/over_sampling_uniform/over_sampler_from", lambda wd: os_u.over_sampler_from(mask=wd.new_mask()), f_sampler)
+    ob("shared/grid/over_sampler", lambda wd: aa.Grid2D.from_mask(mask=wd.new_mask(), over_sampling=os_p).over_sampler, f_sampler)
+
+    def dataset(wd):
+        return aa.Imaging(data=aa.Array2D.no_mask(values=vals.copy(), pixel_scales=wd.ps, origin=wd.origin),
+                          noise_map=aa.Array2D.no_mask(values=noise.copy(), pixel_scales=wd.ps, origin=wd.origin),
+                          psf=psf, over_sampling=os_data)
+
+    def f_masked(ds):
+        f = f_dataset(ds)
+        g = ds.grids
+        f.append(("grids.uniform.over_sampled", "coord", _xy(g.uniform.over_sampler.over_sampled_grid)))
+        f.append(("grids.pixelization.over_sampled", "coord", _xy(g.over_sampler_pixelization.over_sampled_grid)))
+        if g.non_uniform is not None:
+            f.append(("grids.non_uniform.over_sampled", "coord", _xy(g.over_sampler_non_uniform.over_sampled_grid)))
+        f.append(("grids.border_relocator.sub_grid", "coord", _xy(g.border_relocator.sub_grid)))
+        return f
+
+    ob("shared/imaging/apply_mask", lambda wd: dataset(wd).apply_mask(mask=wd.new_mask()), f_masked)
+    ob("shared/imaging/apply_over_sampling",
+       lambda wd: dataset(wd).apply_mask(mask=wd.new_mask()).apply_over_sampling(over_sampling=os_data2), f_masked)
+
+    def iterate(wd):
+        grid = aa.Grid2D.from_mask(mask=wd.new_mask(), over_sampling=os_it)
+        return grid.over_sampler.array_via_func_from(_profile_func, _Profile(wd.o, it["b"], it["q"]))
+
+    ob("shared/over_sampling_iterate/array_via_func_from", iterate, f_array, per=60.0)
+    ob("shared/over_sampling_uniform/array_via_func_from",
+       lambda wd: aa.Grid2D.from_mask(mask=wd.new_mask(), over_sampling=os_n).over_sampler.array_via_func_from(
+           _profile_func, _Profile(wd.o, it["b"], it["q"])), f_array, per=60.0)
+
+    def f_sim(ds):
+        out = [("data.%s" % n, k, v) for n, k, v in f_array(ds.data)]
+        out += [("noise_map.%s" % n, k, v) for n, k, v in f_array(ds.noise_map)]
+        out.append(("grids.uniform", "coord", _xy(ds.grids.uniform)))
+        return out
+
+    ob("shared/simulator/via_image_from",
+       lambda wd: sim.via_image_from(image=aa.Array2D.no_mask(values=vals.copy(), pixel_scales=wd.ps, origin=wd.origin)), f_sim)
+    ob("shared/image_mesh/overlay", lambda wd: overlay.image_plane_mesh_grid_from(mask=wd.new_mask()), f_coord_grid)
+
+    # rectangular mapper from the shared mesh / regularization / over sampling, inversion with the shared settings
+    src_rel = scene.apply_warp(rel_sub_centres(m, w0.ps, subs[1]), case["warp"], [0.0, 0.0])
+    tie_sub = _rect_ties(src_rel, tuple(case["mesh_shape"]), w0.mag)
+    ctx.tie(int(tie_sub.sum()))
+    ctx.label("rect:has-ties" if tie_sub.any() else "rect:tie-free")
+
+    def mapper(wd, ds=None):
+        mask = wd.new_mask() if ds is None else ds.mask
+        osamp = os_p.over_sampler_from(mask=mask)
+        src = scene.apply_warp(np.asarray(osamp.over_sampled_grid), case["warp"], wd.o)
+        mg = mesh.mapper_grids_from(mask=mask, source_plane_data_grid=aa.Grid2DIrregular(values=src), border_relocator=None)
+        return aa.Mapper(mapper_grids=mg, over_sampler=osamp, regularization=reg)
+
+    slim_for_sub = np.repeat(np.arange(int((~m).sum())), subs[1] ** 2)
+    keep_pix = np.ones(int((~m).sum()), dtype=bool)
+    keep_pix[np.unique(slim_for_sub[tie_sub])] = False
+
+    def f_mapper(mp):
+        return [("source_plane_mesh_grid", "coord", _xy(mp.source_plane_mesh_grid)),
+                ("mesh.origin", "coord", np.asarray(mp.source_plane_mesh_grid.origin, dtype=float)),
+                ("over_sampled_grid", "coord", _xy(mp.over_sampler.over_sampled_grid)),
+                ("image_plane_data_grid", "coord", _xy(mp.mapper_grids.image_plane_data_grid)),
+                ("pix_indexes", "exact", np.asarray(mp.pix_indexes_for_sub_slim_index)[~tie_sub]),
+                ("mapping_matrix", "close", np.asarray(mp.mapping_matrix, dtype=float)[keep_pix])]
+
+    ob("shared/mapper_rectangular", mapper, f_mapper)
+    if not tie_sub.any():
+        def inversion(wd):
+            ds = dataset(wd).apply_mask(mask=wd.new_mask())
+            if ds.mask.shape_native != m.shape:
+                raise HarnessError("apply_mask padded a ring-padded frame")
+            return aa.Inversion(dataset=ds, linear_obj_list=[mapper(wd, ds)], settings=settings)
+
+        def f_inv(inv):
+            return [("data_vector", "close", np.asarray(inv.data_vector, dtype=float)),
+                    ("curvature_matrix", "close", np.asarray(inv.curvature_matrix, dtype=float)),
+                    ("regularization_matrix", "close", np.asarray(inv.regularization_matrix, dtype=float))]
+
+        ob("shared/inversion", inversion, f_inv, atol=1e-7)
+
+
+# ---------------------------------------------------------------------------------------------
 # sub-check: pixel_indices
 # ---------------------------------------------------------------------------------------------
 @st.composite
@@ -817,7 +1089,8 @@ def pixel_index_cases(draw):
     h, w = draw(gens.shapes(lo=1, hi=12))
     case["shape"] = [h, w]
     n = draw(st.integers(1, 10))
-    case["points"] = [[draw(pix_coords(h)), draw(pix_coords(w))] for _ in range(n)]
+    near = near_margin(case)
+    case["points"] = [[draw(pix_coords(h, near)), draw(pix_coords(w, near))] for _ in range(n)]
     case["pixels"] = [[draw(st.integers(-1, h)), draw(st.integers(-1, w))] for _ in range(draw(st.integers(1, 4)))]
     return case
 
@@ -831,7 +1104,7 @@ def body_pixel_indices(case, ctx):
     frame_labels(case, ctx)
     ctx.label("frame:nonsquare" if h != w else "frame:square")
     u_all = np.asarray(case["points"], dtype=float)
-    tie = pix_ties(u_all)
+    tie = pix_ties(u_all, case)
     ctx.tie(int(tie.sum()))
     inside = (u_all[:, 0] > 0) & (u_all[:, 0] < h) & (u_all[:, 1] > 0) & (u_all[:, 1] < w)
     ctx.label("points:some-outside" if (~inside).any() else "points:all-inside")
@@ -847,11 +1120,12 @@ def body_pixel_indices(case, ctx):
         return aa.Grid2D.no_mask(values=pts, shape_native=(len(pts), 1), pixel_scales=1.0)
 
     # float pixel coordinates are continuous: every point is compared (1e-8: |y/scale| reaches 4e3)
+    per_pix = 1.0 / min(w0.ps)
     ob("geometry/grid_pixels_2d_from", lambda wd: geom(wd).grid_pixels_2d_from(grid_scaled_2d=as_grid(wd, u_all)).slim,
-       f_close, atol=1e-8)
+       f_close, atol=1e-8, per=per_pix)
     ob("geometry_util/grid_pixels_2d_slim_from", lambda wd: geometry_util.grid_pixels_2d_slim_from(
         grid_scaled_2d_slim=wd.pix_to_scaled(u_all, (h, w)), shape_native=(h, w), pixel_scales=wd.ps, origin=wd.origin),
-       f_close, atol=1e-8)
+       f_close, atol=1e-8, per=per_pix)
     if (~tie).any():
         u = u_all[~tie]
         for i in range(min(len(u), 3)):
@@ -889,32 +1163,74 @@ def body_pixel_indices(case, ctx):
 # ---------------------------------------------------------------------------------------------
 # sub-check: mappers
 # ---------------------------------------------------------------------------------------------
+def rel_sub_centres(mask, ps, sub):
+    """sub-pixel centres of the unmasked pixels relative to the origin (closed form, numpy only)."""
+    m = np.asarray(mask, dtype=bool)
+    cen = rel_centres(m, ps)
+    subs = [sub] * len(cen) if isinstance(sub, int) else list(sub)
+    out = []
+    for (cy, cx), s_ in zip(cen, subs):
+        a = (np.arange(s_) + 0.5) / s_
+        yy = cy + ps[0] / 2.0 - a * ps[0]
+        xx = cx - ps[1] / 2.0 + a * ps[1]
+        out.append(np.stack(np.meshgrid(yy, xx, indexing="ij"), axis=-1).reshape(-1, 2))
+    return np.concatenate(out, axis=0)
+
+
+def _axis_ties(vals, n, mag):
+    """points within a tie band of an interior boundary when [min-1e-8, max+1e-8] is split into n equal cells."""
+    lo = vals.min() - 1e-8
+    hi = vals.max() + 1e-8
+    cell = (hi - lo) / n
+    t = (vals - lo) / cell
+    r = np.round(t)
+    return (np.abs(t - r) < tie_pix(mag, cell)) & (r >= 1) & (r <= n - 1)
+
+
+def _rect_ties(src_rel, shape, mag):
+    """rows of the (origin-relative) source grid within a tie band of an interior cell boundary of the overlaid
+    mesh (bounding box + 1e-8 buffer, split into `shape` equal cells).  The outer boundary is NOT excluded: the
+    1e-8 buffer has to keep the extreme points inside the mesh at every magnitude of the class."""
+    return _axis_ties(src_rel[:, 0], shape[0], mag) | _axis_ties(src_rel[:, 1], shape[1], mag)
+
+
 @st.composite
-def mapper_cases(draw):
-    case = draw(frames())
+def mapper_cases(draw, mags=MAGS):
+    case = draw(frames(mags))
     ring = draw(st.sampled_from([0, 1]))
     mask = draw(offcentre_masks(lo=2, hi=5, ring=ring, min_unmasked=3))
     case["mask"] = mask
     n = sum(1 for r in mask for v in r if not v)
-    case["obj"] = draw(scene.obj_specs(n, kinds=("rect", "rect", "delaunay"), reg_types=("constant",), max_sub=2,
-                                       reg_none=True, max_mesh=4))
+    spec = draw(scene.obj_specs(n, kinds=("rect", "rect", "delaunay"), reg_types=("constant",), max_sub=2,
+                                reg_none=True, max_mesh=4))
+    if spec["type"] == "rect":
+        # choose, per axis, a mesh size for which no source point sits in a tie band of an interior cell boundary
+        # (constructed; the body still guards row-wise for the rare case that no size in 3..5 is free)
+        src = scene.apply_warp(rel_sub_centres(mask, case["pixel_scales"], spec["sub"]), spec["warp"], [0.0, 0.0])
+        for ax in (0, 1):
+            free = [k for k in (3, 4, 5) if not _axis_ties(src[:, ax], k, case["mag"]).any()]
+            if free:
+                spec["shape"][ax] = draw(st.sampled_from(free))
+    else:
+        # Delaunay: Qhull's in-circle test and the shoelace areas behind the interpolation weights are evaluated on
+        # absolute coordinates, so both are only resolved to eps*(M/separation)^2.  The class is bounded to where
+        # that is still small: |o|,|d| <= 1e4, and pixel scales >= 1 in the 1e4 class.
+        if case["mag"] > 1e4:
+            f = 1e4 / case["mag"]
+            case["origin"] = [v * f for v in case["origin"]]
+            if case["shift_kind"] != "tiny":
+                case["shift"] = [v * f for v in case["shift"]]
+            case["mag"] = 1e4
+        # general position by construction: a lattice row / column with exactly zero jitter is collinear / co-circular
+        spec["jitter"] = [j if abs(j) > 1e-3 else 0.04 + 0.2 * float(scene._hash01(i + 1.0)) for i, j in enumerate(spec["jitter"])]
+        if case["mag"] > 100.0:
+            s_ = draw(st.floats(1.0, 5.0))
+            case["pixel_scales"] = [s_, s_ if case["pixel_scales"][0] == case["pixel_scales"][1] else draw(st.floats(1.0, 5.0))]
+    case["obj"] = spec
     return case
 
 
-def _rect_ties(src, shape):
-    """rows of the source grid within TIE_PIX cells of an interior cell boundary of the overlaid mesh
-    (bounding box + 1e-8 buffer, split into `shape` equal cells)."""
-    tie = np.zeros(len(src), dtype=bool)
-    for ax, n in ((0, shape[0]), (1, shape[1])):
-        lo = src[:, ax].min() - 1e-8
-        hi = src[:, ax].max() + 1e-8
-        t = (src[:, ax] - lo) / ((hi - lo) / n)
-        r = np.round(t)
-        tie |= (np.abs(t - r) < TIE_PIX) & (r >= 1) & (r <= n - 1)
-    return tie
-
-
-def _delaunay_guard(verts, src):
+def _delaunay_guard(verts, src, mag=100.0):
     """(degenerate, tie_rows): the vertex set is near co-circular / collinear (triangulation ambiguous), and the
     source points whose assignment is discontinuous (hull boundary, nearest-vertex tie outside the hull)."""
     from scipy.spatial import Delaunay, ConvexHull
@@ -924,10 +1240,14 @@ def _delaunay_guard(verts, src):
     vn = v / scale
     tri = Delaunay(vn)
     degenerate = False
+    # Qhull works on the absolute coordinates: its in-circle test lifts to x^2+y^2 ~ M^2, so in units of the spread
+    # of the vertices the test is only resolved to ~eps*(M/scale)^2
+    tie_circ = TIE_CIRC + ULPS_TOL * EPS * (coord_mag(mag) / scale) ** 2
+    tie_hull = TIE_HULL + ULPS_TIE * EPS * coord_mag(mag)
     for s, nbrs in zip(tri.simplices, tri.neighbors):
         a, b, c = vn[s]
         area2 = abs((b[0] - a[0]) * (c[1] - a[1]) - (b[1] - a[1]) * (c[0] - a[0]))
-        if area2 < TIE_CIRC:
+        if area2 < tie_circ:
             degenerate = True
         for nb in nbrs:
             if nb < 0:
@@ -937,19 +1257,24 @@ def _delaunay_guard(verts, src):
                 continue
             p = vn[opp[0]]
             mat = np.array([[q[0] - p[0], q[1] - p[1], (q[0] - p[0]) ** 2 + (q[1] - p[1]) ** 2] for q in (a, b, c)])
-            if abs(np.linalg.det(mat)) < TIE_CIRC:
+            if abs(np.linalg.det(mat)) < tie_circ:
                 degenerate = True
+    # three or more vertices on one hull edge: Qhull may or may not emit zero-area triangles along that edge
+    hull_n = ConvexHull(vn)
+    on_edge = np.abs(vn @ hull_n.equations[:, :2].T + hull_n.equations[:, 2]) < tie_circ
+    if (on_edge.sum(axis=0) > 2).any():
+        degenerate = True
     hull = ConvexHull(v)
     pts = np.asarray(src, dtype=float) - np.asarray(verts, dtype=float).mean(axis=0)
     # signed distance to every hull facet (normals are unit length): inside <= 0
     sd = pts @ hull.equations[:, :2].T + hull.equations[:, 2]
     worst = sd.max(axis=1)
-    tie = np.abs(worst) < TIE_HULL
+    tie = np.abs(worst) < tie_hull
     outside = worst > 0
     if outside.any():
         d2 = ((pts[outside][:, None, :] - v[None, :, :]) ** 2).sum(axis=2)
         d2.sort(axis=1)
-        near = np.sqrt(d2[:, 1]) - np.sqrt(d2[:, 0]) < TIE_HULL
+        near = np.sqrt(d2[:, 1]) - np.sqrt(d2[:, 0]) < tie_hull
         idx = np.nonzero(outside)[0]
         tie[idx[near]] = True
     return degenerate, tie
@@ -968,7 +1293,7 @@ def body_mappers(case, ctx):
         built.append(scene.build_linear_obj(spec, wd.mask))
     (mp0, info0), (mp1, info1) = built
     src0, src1 = info0["source_grid"], info1["source_grid"]
-    if src0.shape != src1.shape or np.abs(src1 - (src0 + d)).max() > 1e-10:
+    if src0.shape != src1.shape or np.abs(src1 - (src0 + d)).max() > tol(w0.mag, 1e-10):
         raise HarnessError("scene source grid is not translated with the origin")
     slim_for_sub = np.asarray(info0["over_sampler"].slim_for_sub_slim).astype(int)
     n_pix = int((~m).sum())
@@ -988,7 +1313,7 @@ def body_mappers(case, ctx):
         pair("mesh_rectangular/extent", lambda mp: mp.source_plane_mesh_grid.geometry.extent, f_extent)
         pair("mesh_rectangular/pixel_scales", lambda mp: mp.source_plane_mesh_grid.pixel_scales, f_close)
         pair("mesh_rectangular/neighbors", lambda mp: np.asarray(mp.source_plane_mesh_grid.neighbors), f_exact)
-        tie_sub = _rect_ties(src0, shape)
+        tie_sub = _rect_ties(src0 - w0.o, shape, w0.mag)
         ctx.tie(int(tie_sub.sum()))
         ctx.label("rect:has-ties" if tie_sub.any() else "rect:tie-free")
         keep_sub = ~tie_sub
@@ -1004,9 +1329,9 @@ def body_mappers(case, ctx):
              lambda mp: np.asarray(mp.mapping_matrix, dtype=float)[keep_pix], f_close, atol=ATOL_MATRIX)
         return
     verts0 = info0["vertices"]
-    if np.abs(info1["vertices"] - (verts0 + d)).max() > 1e-10:
+    if np.abs(info1["vertices"] - (verts0 + d)).max() > tol(w0.mag, 1e-10):
         raise HarnessError("scene Delaunay vertices are not translated with the origin")
-    degenerate, tie_sub = _delaunay_guard(verts0, src0)
+    degenerate, tie_sub = _delaunay_guard(verts0 - w0.o, src0 - w0.o, w0.mag)
     if degenerate:
         ctx.tie()
         ctx.label("delaunay:degenerate-skipped")
@@ -1018,8 +1343,10 @@ def body_mappers(case, ctx):
     pair("mesh_delaunay/neighbors", lambda mp: _sorted_neighbors(mp.source_plane_mesh_grid.neighbors), f_exact)
     pair("mapper_delaunay/pix_sizes_for_sub_slim_index",
          lambda mp: np.asarray(mp.pix_sizes_for_sub_slim_index)[~tie_sub], f_exact)
+    # barycentric weights are ratios of shoelace areas x1*y2-... of ABSOLUTE coordinates: resolved to eps*(M/separation)^2
     pair("mapper_delaunay/mapping_matrix",
-         lambda mp: np.asarray(mp.mapping_matrix, dtype=float)[keep_pix], f_close, atol=ATOL_MATRIX)
+         lambda mp: np.asarray(mp.mapping_matrix, dtype=float)[keep_pix], f_close, atol=ATOL_MATRIX,
+         per=coord_mag(w0.mag) / info0["min_sep"] ** 2)
 
 
 def _sorted_neighbors(nb):
@@ -1032,14 +1359,16 @@ def _sorted_neighbors(nb):
 
 
 SUBCHECKS = [
-    SubCheck("mask_grids", body_mask_grids, strategy=mask_grid_cases(), examples={"quick": 400, "thorough": 8000},
+    SubCheck("mask_grids", body_mask_grids, strategy=mask_grid_cases(), examples={"quick": 350, "thorough": 8000},
              shards={"quick": 5, "thorough": 16}),
-    SubCheck("image_mesh", body_image_mesh, strategy=image_mesh_cases(), examples={"quick": 420, "thorough": 8000},
+    SubCheck("image_mesh", body_image_mesh, strategy=image_mesh_cases(), examples={"quick": 330, "thorough": 8000},
              shards={"quick": 3, "thorough": 16}),
-    SubCheck("imaging", body_imaging, strategy=imaging_cases(), examples={"quick": 210, "thorough": 4000},
+    SubCheck("imaging", body_imaging, strategy=imaging_cases(), examples={"quick": 180, "thorough": 4000},
              shards={"quick": 3, "thorough": 16}),
-    SubCheck("simulate", body_simulate, strategy=simulate_cases(), examples={"quick": 240, "thorough": 4000},
+    SubCheck("simulate", body_simulate, strategy=simulate_cases(), examples={"quick": 200, "thorough": 4000},
              shards={"quick": 2, "thorough": 8}),
+    SubCheck("shared_config", body_shared_config, strategy=shared_cases(), examples={"quick": 105, "thorough": 2500},
+             shards={"quick": 3, "thorough": 16}),
     SubCheck("pixel_indices", body_pixel_indices, strategy=pixel_index_cases(), examples={"quick": 300, "thorough": 8000},
              shards={"quick": 1, "thorough": 8}),
     SubCheck("mappers", body_mappers, strategy=mapper_cases(), examples={"quick": 300, "thorough": 6000},
